@@ -159,6 +159,12 @@ type Exec struct {
 	// finding F-C04a, over-withdrawal clause). UndelCount feeds that budget.
 	OverdrawnSeen map[string]bool
 	UndelCount    map[string]int
+	// ShareOps / MaxShareTotal: successful undelegations and redelegations of an asset since its
+	// last reset, and the largest share total it had meanwhile — the dust allowance of the
+	// listed finding F-C03 (one share plus 1e-18 of the share total per such operation) caps how
+	// much share-total mismatch assetTol may attribute to rounding.
+	ShareOps      map[string]int
+	MaxShareTotal map[string]*big.Rat
 	Twin          *Exec
 	TwinRes       *Res
 	ExportA       []byte   // export of the original at the fork
@@ -180,6 +186,10 @@ type Exec struct {
 	ErrOverTol map[string]float64 // largest observed error/tolerance ratio per quantity
 	StopOnVio  bool
 }
+
+// curExec is the execution whose step is being judged (one at a time per process); assetTol
+// reads its dust allowance.
+var curExec *Exec
 
 // Violation is what an oracle reports.
 type Violation struct {
@@ -366,6 +376,7 @@ func (x *Exec) Apply(op Op) Res {
 		return Res{Err: "halted"}
 	}
 	x.Log = append(x.Log, op)
+	curExec = x
 	// post of previous step becomes pre of this one
 	x.pre, x.post = x.post, nil
 	if x.pre == nil {
